@@ -23,6 +23,8 @@ def run():
                   vlib.model_check("JoinImpl", "JoinImpl.cfg", timeout=600))
     r = vlib.model_check("JoinImpl", "JoinImpl_dev.cfg", expect_ok=False, timeout=600)
     chk.add_model("JoinImpl/deviation ExitCallbackPopDropsNewEntry (must violate)", r, note="violated: %s" % r["violated"])
+    r2 = vlib.model_check("JoinImpl", "JoinImpl_dev2.cfg", expect_ok=False, timeout=600)
+    chk.add_model("JoinImpl/deviation RegisterChecksBeforeLock (must violate)", r2, note="violated: %s" % r2["violated"])
     (binary,) = vlib.build_harness(["thread_harness"])
     nruns = 64 if chk.thorough() else 16
     nhist = 150 if chk.thorough() else 60
